@@ -42,6 +42,11 @@ func (self ValueObject) Display() (string, *Interrupt) {
 }
 
 func (self ValueObject) IsEqual(other Value) (bool, *Interrupt) {
+	// values of different kinds may meet where the static type is `any` (inside an option, an any-object)
+	if other.Kind() != self.Kind() {
+		return false, nil
+	}
+
 	otherObj := other.(ValueObject)
 
 	// both objects need to have the same set of keys
